@@ -799,4 +799,413 @@ theorem zip_lookup (table : List (String × Comp)) : ∀ (keys : List String) (c
         · exact ih cs' h2 k h3
     · cases h
 
+/-! ## Part 9: the normalisation as a scalar division; which errors the gate can produce -/
+
+theorem qgcd_nonneg (a b : ℚ) : 0 ≤ qgcd a b := by unfold qgcd; positivity
+
+theorem qgcd_pos_left (a b : ℚ) (ha : a ≠ 0) : 0 < qgcd a b := by
+  obtain ⟨k, hk⟩ := qgcd_zdvd_left a b
+  rcases (qgcd_nonneg a b).lt_or_eq with h | h
+  · exact h
+  · exfalso; apply ha; rw [hk, ← h]; simp
+
+theorem gcdListLoop_pos : ∀ (xs : List ℚ) (r : ℚ), 0 < r → 0 < gcdListLoop r xs := by
+  intro xs
+  induction xs with
+  | nil => intro r hr; simpa [gcdListLoop] using hr
+  | cons x xs ih =>
+    intro r hr
+    unfold gcdListLoop
+    simp only
+    have hq := qgcd_pos_left r x (ne_of_gt hr)
+    split
+    · exact hq
+    · exact ih _ hq
+
+theorem foldl_qgcd_pos : ∀ (xs : List ℚ) (x : ℚ), 0 < x → 0 < xs.foldl qgcd x := by
+  intro xs
+  induction xs with
+  | nil => intro x hx; simpa using hx
+  | cons y ys ih => intro x hx; exact ih _ (qgcd_pos_left x y (ne_of_gt hx))
+
+theorem stage1_eq (v : Vec) (hf : gcdList v ≠ 0) : stage1 v = (v.map (· / gcdList v)).map Entry.num := by
+  unfold stage1
+  simp only
+  rw [List.map_map]
+  apply List.map_congr_left
+  intro e _
+  simp [divE, hf]
+
+theorem stage1_zero (v : Vec) (hf : gcdList v = 0) : stage1 v = v.map (fun _ => Entry.nan) := by
+  unfold stage1
+  simp only
+  apply List.map_congr_left
+  intro e _
+  simp [divE, hf]
+
+theorem stage2_map_num (a : ℚ) (r : Vec) :
+    stage2 ((a :: r).map Entry.num) = .ok ((a :: r).map (divE · (r.foldl qgcd a))) := by
+  have h := nums?_map_num (a :: r)
+  simp only [List.map_cons] at h
+  simp only [List.map_cons, stage2, h, reduceGcd]
+
+/-- the two normalisation lines on a numeric vector: either a division of the whole vector by one non-zero
+    number, or all-nan (only when the vector is all zero) -/
+theorem stage_norm_cases (v : Vec) (sol : List Entry) (h : stage2 (stage1 v) = .ok sol) :
+    sol.length = v.length ∧ v ≠ [] ∧
+      ((∃ d : ℚ, d ≠ 0 ∧ sol = (v.map (· / d)).map Entry.num) ∨ (∀ e ∈ sol, e = Entry.nan)) := by
+  cases v with
+  | nil => simp [stage1, stage2] at h
+  | cons v0 vs =>
+    by_cases hf : gcdList (v0 :: vs) = 0
+    · rw [stage1_zero _ hf] at h
+      simp only [List.map_cons, stage2, nums?] at h
+      injection h with h
+      subst h
+      refine ⟨by simp, by simp, Or.inr ?_⟩
+      intro e he
+      simp only [List.mem_cons, List.mem_map] at he
+      rcases he with he | ⟨_, _, he⟩
+      · exact he
+      · exact he.symm
+    · rw [stage1_eq _ hf, List.map_cons, stage2_map_num] at h
+      injection h with h
+      subst h
+      refine ⟨by simp, by simp, ?_⟩
+      generalize hg : (vs.map (· / gcdList (v0 :: vs))).foldl qgcd (v0 / gcdList (v0 :: vs)) = g
+      by_cases hg0 : g = 0
+      · right
+        intro e he
+        rw [hg0] at he
+        simp only [List.mem_map, List.mem_cons] at he
+        obtain ⟨a, _, ha⟩ := he
+        simp [divE] at ha
+        exact ha.symm
+      · left
+        refine ⟨gcdList (v0 :: vs) * g, mul_ne_zero hf hg0, ?_⟩
+        rw [← List.map_cons (f := (· / gcdList (v0 :: vs))), List.map_map, List.map_map]
+        apply List.map_congr_left
+        intro e _
+        simp [divE, hg0, div_div]
+
+theorem positivity_of_pos : ∀ (w : Vec), (∀ q ∈ w, 0 < q) → positivity (w.map Entry.num) = .ok () := by
+  intro w
+  induction w with
+  | nil => intro _; rfl
+  | cons a r ih =>
+    intro h
+    simp only [List.map_cons, positivity, h a (List.mem_cons_self ..), if_true]
+    exact ih (fun q hq => h q (List.mem_cons_of_mem _ hq))
+
+theorem dot_map_mul_right (c : ℚ) : ∀ (r x : List ℚ), dot r (x.map (c * ·)) = c * dot r x := by
+  intro r
+  induction r with
+  | nil => intro x; cases x <;> simp [dot]
+  | cons a as ih =>
+    intro x
+    cases x with
+    | nil => simp [dot]
+    | cons b bs => simp only [List.map_cons, dot, ih bs]; ring
+
+theorem any_num_zero_false (w : Vec) (h : ∀ q ∈ w, 0 < q) :
+    ((w.map Entry.num).any (· == Entry.num 0)) = false := by
+  rw [List.any_eq_false]
+  intro e he
+  obtain ⟨q, hq, rfl⟩ := List.mem_map.1 he
+  have := h q hq
+  simp only [beq_iff_eq, Entry.num.injEq]
+  exact ne_of_gt this
+
+theorem any_eq_false_of_num (w : Vec) (e0 : Entry) (he0 : e0.isNum = false) :
+    ((w.map Entry.num).any (· == e0)) = false := by
+  rw [List.any_eq_false]
+  intro e he
+  obtain ⟨q, _, rfl⟩ := List.mem_map.1 he
+  simp only [beq_iff_eq]
+  intro h
+  rw [← h] at he0
+  cases he0
+
+/-- a positive, balanced, well-shaped numeric vector passes every check, in all three modes -/
+theorem gateChecks_pass (mode : Mode) (A : Mat) (w : Vec) (hpos : ∀ q ∈ w, 0 < q) (hwf : wellFormed A = true)
+    (hcols : cols A = w.length) (hbal : ∀ r ∈ A, dot r w = 0) :
+    gateChecks mode A (w.map Entry.num) = .ok (w.map Entry.num) := by
+  have hres : (A.all fun r => dotE r (w.map Entry.num) == some 0) = true := by
+    rw [List.all_eq_true]
+    intro r hr
+    rw [dotE_num, hbal r hr]
+    simp
+  unfold gateChecks
+  rw [any_num_zero_false w hpos]
+  cases mode <;>
+    simp [any_eq_false_of_num w Entry.nan rfl, any_eq_false_of_num w Entry.sym rfl, positivity_of_pos w hpos,
+      hwf, hcols, hres]
+
+theorem dotE_some_isNum : ∀ (r : List ℚ) (sol : List Entry) (z : ℚ), dotE r sol = some z → r.length = sol.length →
+    ∀ e ∈ sol, e.isNum = true := by
+  intro r
+  induction r with
+  | nil => intro sol z _ hl e he; cases sol with
+    | nil => cases he
+    | cons _ _ => simp at hl
+  | cons a as ih =>
+    intro sol z h hl e he
+    cases sol with
+    | nil => cases he
+    | cons b bs =>
+      simp only [List.length_cons, Nat.add_right_cancel_iff] at hl
+      cases b with
+      | num q =>
+        simp only [dotE, Option.map_eq_some_iff] at h
+        obtain ⟨z', hz', _⟩ := h
+        rcases List.mem_cons.1 he with rfl | he
+        · rfl
+        · exact ih bs z' hz' hl e he
+      | sym => simp [dotE] at h
+      | nan => simp [dotE] at h
+
+theorem positivity_err_of_isNum : ∀ (sol : List Entry) (e : Err), (∀ x ∈ sol, x.isNum = true) →
+    positivity sol = .error e → e = .valueError "nonpositive" := by
+  intro sol
+  induction sol with
+  | nil => intro e _ h; simp [positivity] at h
+  | cons b bs ih =>
+    intro e hn h
+    cases b with
+    | num q =>
+      unfold positivity at h
+      split at h
+      · exact ih e (fun x hx => hn x (List.mem_cons_of_mem _ hx)) h
+      · injection h with h; exact h.symm
+    | sym => have := hn _ (List.mem_cons_self ..); cases this
+    | nan => have := hn _ (List.mem_cons_self ..); cases this
+
+/-- in the numeric modes, with a well-formed non-empty matrix and a solution vector of the right length, every
+    refusal of the checks is a `ValueError` -/
+theorem gateChecks_error_is_valueError (mode : Mode) (hm : mode ≠ .symbolic) (A : Mat) (sol : List Entry) (e : Err)
+    (hwf : wellFormed A = true) (hA : A ≠ []) (hcols : cols A = sol.length)
+    (h : gateChecks mode A sol = .error e) : ∃ tag, e = .valueError tag := by
+  have key : ∀ (hh : (if (sol.any (· == Entry.sym)) = true then Except.error (Err.valueError "underdetermined") else
+      if (!(wellFormed A) || cols A != sol.length) = true then Except.error Err.shapeError else
+      if (!(A.all fun r => dotE r sol == some 0)) = true then Except.error (Err.valueError "failed") else
+      match positivity sol with
+      | .error e => Except.error e
+      | .ok _ => Except.ok sol) = Except.error e), ∃ tag, e = .valueError tag := by
+    intro hh
+    split at hh
+    · injection hh with hh; exact ⟨_, hh.symm⟩
+    · split at hh
+      · rename_i hshape
+        simp [hwf, hcols] at hshape
+      · split at hh
+        · injection hh with hh; exact ⟨_, hh.symm⟩
+        · rename_i hres
+          simp only [Bool.not_eq_true', Bool.not_eq_false] at hres
+          split at hh
+          · rename_i e' hp
+            injection hh with hh
+            subst hh
+            obtain ⟨r0, hr0⟩ := List.exists_mem_of_ne_nil A hA
+            have h1 := (List.all_eq_true.1 hres) r0 hr0
+            have hlen : r0.length = sol.length := by
+              have := (List.all_eq_true.1 hwf) r0 hr0
+              rw [← hcols]; simpa using this
+            have hnum := dotE_some_isNum r0 sol 0 (by simpa using h1) hlen
+            exact ⟨_, positivity_err_of_isNum sol _ hnum hp⟩
+          · cases hh
+  unfold gateChecks at h
+  split at h
+  · injection h with h; exact ⟨_, h.symm⟩
+  · cases mode with
+    | symbolic => exact absurd rfl hm
+    | strict => exact key h
+    | smallest => exact key h
+
+/-! ## Part 10: the values of the returned dicts -/
+
+theorem findIdx_lookup : ∀ (keys : List String), keys.Nodup → ∀ (sol : List Entry), sol.length = keys.length →
+    keys.map (fun k => sol[keys.findIdx (· == k)]?) = sol.map some := by
+  intro keys
+  induction keys with
+  | nil => intro _ sol hl; have : sol = [] := List.length_eq_zero_iff.1 hl; subst this; rfl
+  | cons k0 r ih =>
+    intro hnd sol hl
+    cases sol with
+    | nil => simp at hl
+    | cons s0 ss =>
+      simp only [List.length_cons, Nat.add_right_cancel_iff] at hl
+      obtain ⟨hk0, hr⟩ := List.nodup_cons.1 hnd
+      simp only [List.map_cons, List.cons.injEq]
+      constructor
+      · simp [List.findIdx_cons]
+      · rw [← ih hr ss hl]
+        apply List.map_congr_left
+        intro k hk
+        have hne : (k0 == k) = false := by
+          simp only [beq_eq_false_iff_ne, ne_eq]
+          intro h; exact hk0 (h ▸ hk)
+        simp [List.findIdx_cons, hne]
+
+theorem toInt_intCast (k : ℤ) : toInt (k : ℚ) = k := by
+  simp [toInt]
+
+theorem coeffOf_int (mode : Mode) (keys : List String) (ks : List ℤ) (k : String) :
+    coeffOf mode keys (ks.map fun (i : ℤ) => Entry.num (i : ℚ)) k
+      = (ks.map fun (i : ℤ) => Entry.num (i : ℚ))[keys.findIdx (· == k)]? := by
+  unfold coeffOf
+  simp only
+  generalize hi : keys.findIdx (· == k) = i
+  cases hget : (ks.map fun (i : ℤ) => Entry.num (i : ℚ))[i]? with
+  | none => rfl
+  | some e =>
+    have hmem : e ∈ ks.map fun (i : ℤ) => Entry.num (i : ℚ) := List.mem_of_getElem? hget
+    obtain ⟨z, _, rfl⟩ := List.mem_map.1 hmem
+    cases mode <;> simp [toInt_intCast]
+
+theorem mkDict_eq (mode : Mode) (keys : List String) (sol : List Entry) : ∀ (side : List String)
+    (d : List (String × Entry)), mkDict mode keys sol side = some d → side.Nodup →
+    d.map (fun q => some q.2) = side.map (coeffOf mode keys sol) := by
+  intro side
+  induction side with
+  | nil => intro d h _; simp [mkDict] at h; subst h; rfl
+  | cons k r ih =>
+    intro d h hnd
+    unfold mkDict at h
+    split at h
+    · rename_i e d' he hd'
+      injection h with h
+      subst h
+      have hr := ih d' hd' (List.nodup_cons.1 hnd).2
+      have hkeys := mkDict_keys mode keys sol r d' hd' (List.nodup_cons.1 hnd).2
+      have hk : k ∉ r := (List.nodup_cons.1 hnd).1
+      have hfil : d'.filter (fun q => q.1 != k) = d' := by
+        rw [List.filter_eq_self]
+        intro q hq
+        have : q.1 ∈ r := by rw [← hkeys]; exact List.mem_map.2 ⟨q, hq, rfl⟩
+        simp only [bne_iff_ne, ne_eq]
+        intro heq
+        exact hk (heq ▸ this)
+      simp [hfil, hr, he]
+    · cases h
+
+/-- with distinct names, the two dicts list the solution vector in order: reactant part then product part -/
+theorem dict_values (mode : Mode) (er ep : List String) (ks : List ℤ) (r pr : List (String × Entry))
+    (hnd : (er ++ ep).Nodup) (hlen : ks.length = (er ++ ep).length)
+    (h1 : mkDict mode (er ++ ep) (ks.map fun (i : ℤ) => Entry.num (i : ℚ)) er = some r)
+    (h2 : mkDict mode (er ++ ep) (ks.map fun (i : ℤ) => Entry.num (i : ℚ)) ep = some pr) :
+    r.map (·.2) ++ pr.map (·.2) = ks.map fun (i : ℤ) => Entry.num (i : ℚ) := by
+  have hndr : er.Nodup := (List.nodup_append.1 hnd).1
+  have hndp : ep.Nodup := (List.nodup_append.1 hnd).2.1
+  have e1 := mkDict_eq mode _ _ er r h1 hndr
+  have e2 := mkDict_eq mode _ _ ep pr h2 hndp
+  have e3 := findIdx_lookup (er ++ ep) hnd (ks.map fun (i : ℤ) => Entry.num (i : ℚ)) (by simpa using hlen)
+  have : (r.map (·.2) ++ pr.map (·.2)).map some = (ks.map fun (i : ℤ) => Entry.num (i : ℚ)).map some := by
+    rw [← e3, List.map_append, List.map_append, List.map_map, List.map_map]
+    have f1 : (some ∘ fun (q : String × Entry) => q.2) = fun q => some q.2 := rfl
+    rw [f1, e1, e2]
+    congr 1 <;> (apply List.map_congr_left; intro k _; exact coeffOf_int mode _ ks k)
+  exact (List.map_injective_iff.2 (Option.some_injective _)) this
+
+theorem setup_row_length (p : Problem) (A : Mat) (h : setup p = .ok A) :
+    ∀ r ∈ A, r.length = (p.reactants ++ p.products).length := by
+  unfold setup at h
+  split at h
+  · cases h
+  · split at h
+    · rename_i rc pc hrc hpc
+      simp only at h
+      split at h
+      · cases h
+      · injection h with h
+        subst h
+        intro r hr
+        unfold matrix at hr
+        obtain ⟨ck, _, rfl⟩ := List.mem_map.1 hr
+        have h1 := lookupAll_length _ _ _ hrc
+        have h2 := lookupAll_length _ _ _ hpc
+        simp [h1, h2]
+    · cases h
+
+theorem setup_disjoint (p : Problem) (A : Mat) (h : setup p = .ok A) : ∀ s ∈ p.products, s ∉ p.reactants := by
+  unfold setup at h
+  split at h
+  · cases h
+  · rename_i hboth
+    intro s hs hr
+    apply hboth
+    rw [List.any_eq_true]
+    exact ⟨s, hr, by simpa using hs⟩
+
+/-! ## Part 11: normalisation of a positive vector; mode True -/
+
+theorem stage_norm_ok (v : Vec) (hv : v ≠ []) : ∃ sol, stage2 (stage1 v) = .ok sol := by
+  cases v with
+  | nil => exact absurd rfl hv
+  | cons v0 vs =>
+    by_cases hf : gcdList (v0 :: vs) = 0
+    · rw [stage1_zero _ hf]
+      simp only [List.map_cons, stage2, nums?]
+      exact ⟨_, rfl⟩
+    · rw [stage1_eq _ hf, List.map_cons, stage2_map_num]
+      exact ⟨_, rfl⟩
+
+/-- a positive vector is divided by one positive number -/
+theorem stage_norm_pos (v : Vec) (hv : v ≠ []) (hpos : ∀ q ∈ v, 0 < q) :
+    ∃ d : ℚ, 0 < d ∧ stage2 (stage1 v) = .ok ((v.map (· / d)).map Entry.num) := by
+  cases v with
+  | nil => exact absurd rfl hv
+  | cons v0 vs =>
+    have hv0 : 0 < v0 := hpos v0 (List.mem_cons_self ..)
+    have hfpos : 0 < gcdList (v0 :: vs) := gcdListLoop_pos vs v0 hv0
+    have hf : gcdList (v0 :: vs) ≠ 0 := ne_of_gt hfpos
+    rw [stage1_eq _ hf, List.map_cons, stage2_map_num]
+    have hgpos : 0 < (vs.map (· / gcdList (v0 :: vs))).foldl qgcd (v0 / gcdList (v0 :: vs)) :=
+      foldl_qgcd_pos _ _ (div_pos hv0 hfpos)
+    generalize hg : (vs.map (· / gcdList (v0 :: vs))).foldl qgcd (v0 / gcdList (v0 :: vs)) = g at hgpos
+    have hg0 : g ≠ 0 := ne_of_gt hgpos
+    refine ⟨gcdList (v0 :: vs) * g, mul_pos hfpos hgpos, ?_⟩
+    congr 1
+    rw [← List.map_cons (f := (· / gcdList (v0 :: vs))), List.map_map, List.map_map]
+    apply List.map_congr_left
+    intro e _
+    simp [divE, hg0, div_div]
+
+theorem gateChecks_symbolic_ok (A : Mat) (sol x : List Entry) (h : gateChecks .symbolic A sol = .ok x) :
+    x = sol ∧ (sol.any (· == Entry.nan)) = false ∧ positivity sol = .ok () := by
+  unfold gateChecks at h
+  split at h
+  · cases h
+  · simp only at h
+    split at h
+    · cases h
+    · rename_i hnan
+      split at h
+      · cases h
+      · rename_i hpos
+        injection h with h
+        exact ⟨h.symm, Bool.eq_false_iff.2 hnan, by rw [hpos]⟩
+
+theorem map_num_injective (w w' : Vec) (h : w.map Entry.num = w'.map Entry.num) : w = w' := by
+  have := congrArg nums? h
+  rw [nums?_map_num, nums?_map_num] at this
+  exact Option.some.inj this
+
+/-- the resolution step reads this call's table and nothing else (a re-reading of `resolve`; kept as a lemma) -/
+theorem resolve_lookup (table : List (String × Comp)) (arg : SubstArg) (reac prod : List String)
+    (subs : List (String × Comp)) (h : resolve table arg reac prod = some subs) :
+    match arg with
+    | .mapping => subs = table
+    | .factory => ∀ k ∈ reac ++ prod, subs.lookup k = table.lookup k
+    | .keys ks => ∀ k ∈ ks, subs.lookup k = table.lookup k := by
+  cases arg with
+  | mapping => simp only [resolve, Option.some.injEq] at h; exact h.symm
+  | factory =>
+    simp only [resolve, Option.map_eq_some_iff] at h
+    obtain ⟨cs, hcs, rfl⟩ := h
+    exact zip_lookup table _ cs hcs
+  | keys ks =>
+    simp only [resolve, Option.map_eq_some_iff] at h
+    obtain ⟨cs, hcs, rfl⟩ := h
+    exact zip_lookup table _ cs hcs
+
 end ChemModel.Balance
